@@ -29,6 +29,7 @@ type Program struct {
 	OpenFindings     map[string]bool
 	initOrder        []*ssa.Package
 	PureTypes        func(types.Type) bool
+	ReinitGlobals    bool     // package-level state is rebuilt for every path and may be written (C19)
 	BrokenHarness    []string // harness packages dropped because they no longer compile
 	Params           map[string]int
 	AssertPrefix     string
@@ -213,6 +214,21 @@ func NewMachine(P *Program) (*Machine, error) {
 	}
 	m := &Machine{trace: Trace, P: P, ts: NewTermStore(), sol: sol, globals: map[*ssa.Global]Ptr{}, funcCount: map[*ssa.Function]int{}, stubsHit: map[string]int{}}
 	m.lim = Limits{Depth: 400, Loop: 100000, Instrs: 50000000}
+	if ierr := m.initGlobals(); ierr != nil {
+		sol.Close()
+		return nil, ierr
+	}
+	if !P.ReinitGlobals {
+		m.freezeGlobals()
+	}
+	m.funcCount = map[*ssa.Function]int{}
+	return m, nil
+}
+
+// initGlobals (re)creates the storage of every package-level variable and runs the Grits
+// packages' initialisers concretely.
+func (m *Machine) initGlobals() error {
+	P := m.P
 	// storage for globals of every package (zeroed); init only for Grits packages
 	for _, pkg := range P.Prog.AllPackages() {
 		for _, mem := range pkg.Members {
@@ -253,13 +269,7 @@ func NewMachine(P *Program) (*Machine, error) {
 			m.runInit(sp)
 		}
 	}()
-	if ierr != nil {
-		sol.Close()
-		return nil, ierr
-	}
-	m.freezeGlobals()
-	m.funcCount = map[*ssa.Function]int{}
-	return m, nil
+	return ierr
 }
 
 // runInit executes the package initialiser but skips the calls to imported packages' init
